@@ -16,7 +16,9 @@ import (
 	"github.com/sourcenetwork/immutable"
 
 	"github.com/sourcenetwork/defradb/client"
+	"github.com/sourcenetwork/defradb/client/request"
 	"github.com/sourcenetwork/defradb/errors"
+	"github.com/sourcenetwork/defradb/internal/connor"
 	"github.com/sourcenetwork/defradb/internal/core"
 	"github.com/sourcenetwork/defradb/internal/datastore"
 	"github.com/sourcenetwork/defradb/internal/db/id"
@@ -74,8 +76,12 @@ func newIndexFetcher(
 		indexField := mapper.Field{Index: typeIndex, Name: field.Name}
 		fieldsToCopy = append(fieldsToCopy, indexField)
 	}
+	// A condition inside an _or does not restrict the result on its own: documents that only match another
+	// branch of the _or would be missed if the index was narrowed by it. The complete filter is applied to
+	// the fetched documents anyway, so the index is only given the conditions outside of any _or.
+	indexableFilter := withoutOrBranches(docFilter)
 	for i := range fieldsToCopy {
-		f.indexFilter = filter.Merge(f.indexFilter, filter.CopyField(docFilter, fieldsToCopy[i]))
+		f.indexFilter = filter.Merge(f.indexFilter, filter.CopyField(indexableFilter, fieldsToCopy[i]))
 	}
 
 	for _, indexedField := range f.indexDesc.Fields {
@@ -92,6 +98,51 @@ func newIndexFetcher(
 
 	f.indexIter = iter
 	return f, iter.Init(ctx, txn.Datastore())
+}
+
+// withoutOrBranches returns a copy of the filter with every _or operator (and everything inside it) removed.
+func withoutOrBranches(f *mapper.Filter) *mapper.Filter {
+	if f == nil {
+		return nil
+	}
+	return &mapper.Filter{Conditions: withoutOrConditions(f.Conditions)}
+}
+
+func withoutOrConditions(conditions map[connor.FilterKey]any) map[connor.FilterKey]any {
+	result := make(map[connor.FilterKey]any, len(conditions))
+	for key, clause := range conditions {
+		op, isOp := key.(*mapper.Operator)
+		if !isOp {
+			result[key] = clause
+			continue
+		}
+		if op.Operation == request.FilterOpOr {
+			continue
+		}
+		switch t := clause.(type) {
+		case []any:
+			elements := make([]any, 0, len(t))
+			for _, element := range t {
+				if elementMap, ok := element.(map[connor.FilterKey]any); ok {
+					if stripped := withoutOrConditions(elementMap); len(stripped) > 0 {
+						elements = append(elements, stripped)
+					}
+				} else {
+					elements = append(elements, element)
+				}
+			}
+			if len(elements) > 0 {
+				result[key] = elements
+			}
+		case map[connor.FilterKey]any:
+			if stripped := withoutOrConditions(t); len(stripped) > 0 {
+				result[key] = stripped
+			}
+		default:
+			result[key] = clause
+		}
+	}
+	return result
 }
 
 func (f *indexFetcher) NextDoc() (immutable.Option[string], error) {
